@@ -2,9 +2,9 @@ package main
 
 import (
 	"fmt"
-	"math"
 	"go/token"
 	"go/types"
+	"math"
 	"strings"
 
 	"golang.org/x/tools/go/ssa"
@@ -296,8 +296,22 @@ func runC08Narrow(c *Ctx) {
 				// uses that compute nothing from the value: handing it to a function
 				// (which checks its own parameter: C08.alloc obligations there), returning
 				// it next to the error of that function, merging it
+				if call, isCall := r.(*ssa.Call); isCall {
+					// handed to a repository function: that function must test its parameter for < 0 before computing with it
+					if g := staticCallee(call); g != nil && len(g.Blocks) > 0 && c.P.InRepo(g) {
+						for ai, a := range call.Call.Args {
+							if a != ssa.Value(cv) || ai >= len(g.Params) {
+								continue
+							}
+							if where := paramUsedBeforeSignTest(g.Params[ai]); where != nil {
+								bad = "passed to " + FuncName(g) + ", which computes with it at " + c.P.Pos(where.Pos()) + " without having tested it for < 0"
+							}
+						}
+					}
+					continue
+				}
 				switch r.(type) {
-				case *ssa.Phi, *ssa.Call, *ssa.Return:
+				case *ssa.Phi, *ssa.Return:
 					continue
 				}
 				nonNeg := false
@@ -543,4 +557,33 @@ func runC09Hypot(c *Ctx) {
 	if n < 2 {
 		c.Errorf("only %d Euclidean norm computations found in geom/rtree, expected >= 2", n)
 	}
+}
+
+// paramUsedBeforeSignTest: an instruction that computes with (allocates by, indexes by, does arithmetic on) the
+// signed parameter p where p >= 0 has not been established; nil when every such use is guarded
+func paramUsedBeforeSignTest(p *ssa.Parameter) ssa.Instruction {
+	if p.Referrers() == nil {
+		return nil
+	}
+	for _, r := range *p.Referrers() {
+		switch x := r.(type) {
+		case *ssa.BinOp:
+			switch x.Op {
+			case token.LSS, token.LEQ, token.GTR, token.GEQ, token.EQL, token.NEQ:
+				continue
+			}
+		case *ssa.Phi, *ssa.Return, *ssa.DebugRef, *ssa.Call, *ssa.MakeInterface, *ssa.Store:
+			continue
+		}
+		in, ok := r.(ssa.Instruction)
+		if !ok {
+			continue
+		}
+		lo, _, hasLo, _ := intBounds(in, p)
+		if hasLo && lo >= 0 {
+			continue
+		}
+		return in
+	}
+	return nil
 }
